@@ -43,6 +43,18 @@ func codecEP(name string, mk func() codec, extra ...[]byte) *EP {
 	}, seeds...)
 }
 
+// smbParamWords: offsets of the parameter words of an encoded message (32-byte header, WordCount, words).
+func smbParamWords(seed []byte) []int {
+	if len(seed) < 33 {
+		return nil
+	}
+	var out []int
+	for k := 0; k < int(seed[32]) && 33+2*k+2 <= len(seed); k++ {
+		out = append(out, 33+2*k)
+	}
+	return out
+}
+
 const msgEnvelope = "smb.Message.Unmarshal[envelope]"
 
 func regSMB() {
@@ -129,7 +141,7 @@ func regSMB() {
 	callMsg := func(in []byte) error { return message.NewMessage().Unmarshal(in) }
 	for _, cs := range cmds {
 		add(&EP{Name: cs.name, Call: callMsg, Attr: attrFn, Seeds: cs.seeds, Prefix: cs.hdr,
-			SmallFull: [2]int{1, 2}, Small16: [2]int{3, 3}})
+			SmallFull: [2]int{1, 2}, Small16: [2]int{3, 3}, ParamWords: smbParamWords})
 	}
 	// the envelope itself: all short inputs and every command code / flag byte on an empty body
 	{
